@@ -1300,6 +1300,14 @@ def getattr_(o, name):
     return getattr(o, name)
 
 
+def super_(cls, obj):
+    """zero-argument super() of instrumented code; model twins of a class (sx.models.etree) stand in for it"""
+    t = obj if isinstance(obj, type) else type(obj)
+    if getattr(t, '__sx_model_of__', None) is cls:
+        return super(t, obj)
+    return super(cls, obj)
+
+
 WRITES = []   # (obj, name) attribute stores performed by instrumented code on the current path
 
 
